@@ -63,7 +63,25 @@ def w_routes(arg):
     rng = np.random.default_rng(seed * 23 + idx)
     for chem in range(len(c.basis)):
         routes(acc, c, chem, rng, 6 if tier == 'quick' else 30)
-    acc.sample = {'crystal': cid, 'checked': 'O1-O14 numerically incl. cart2pos, random operations / lattice vectors / sites'}
+    # the same routes on a crystal whose constructor arguments were afterwards edited in place by the caller (one array re-used
+    # for a family of crystals): the object must carry its own consistent lattice / inverse / operations
+    try:
+        from onsager import crystal as _cr
+        latt_in = np.array(c.lattice); basis_in = [[np.array(u) for u in b] for b in c.basis]
+        kw = {} if c.spins is None else {'spins': [[np.array(x) if np.ndim(x) else x for x in sp] for sp in c.spins]}
+        c2 = _cr.Crystal(latt_in, basis_in, list(c.chemistry), **kw)
+        latt_in[-1, -1] *= 1.2; latt_in[0, -1] += 0.07
+        for b in basis_in:
+            for u in b: u += 0.123
+        class _Tag:
+            def __init__(self, a): self.a = a
+            def check(self, ok, clause, detail='', **k): return self.a.check(ok, clause + ' [arguments edited in place after construction]', detail, **k)
+            def __getattr__(self, n): return getattr(self.a, n)
+        for chem in range(len(c2.basis)):
+            routes(_Tag(acc), c2, chem, rng, 3 if tier == 'quick' else 10)
+    except Exception as ex:
+        acc.check(False, 'routes-after-arguments-edited-in-place', 'raised %s: %s' % (type(ex).__name__, str(ex)[:200]), sig='owns')
+    acc.sample = {'crystal': cid, 'checked': 'O1-O14 numerically incl. cart2pos, random operations / lattice vectors / sites; again on a rebuilt crystal whose constructor arguments were then edited in place'}
     return acc.result()
 
 
